@@ -5,7 +5,7 @@ from mirsym.harness import *
 TA_OPAQUE = [r'as anchor_lang::Accounts', r'map_err', r'anchor_spl', r'Vec<', r'BTree',
              r'with_account_name', r'with_pubkeys', r'with_values', r'anchor_lang::error', r'ErrorCode', r'to_account_info', r'get_associated_token_address',
              r'Rent', r'system_program', r'invoke', r'realloc', r'exit$', r'Pubkey::from', r'get_associated_token_address']
-TA_KERNELS = [r'can_be_closed$']
+TA_KERNELS = [r'can_be_closed$', r'has_admin_deposit$']
 
 
 def struct_of(f):
